@@ -2,7 +2,7 @@
    value table; the harness reads the files itself, classifies every slot from its bytes and hands the
    dump to the extracted checker; the btree half uses the proved btree checker of C04). *)
 From Coq Require Import NArith List Bool Arith Permutation.
-From PDB Require Import Model.StorageCheck Proofs.StorageCheckProofs Model.TableAlloc Proofs.TableAllocProofs.
+From PDB Require Import Model.StorageCheck Proofs.StorageCheckProofs Model.TableAlloc Proofs.TableAllocProofs Proofs.TableChainProofs.
 Import ListNotations.
 Open Scope N_scope.
 
@@ -59,6 +59,34 @@ Theorem C14_free_pushes_on_free_list :
   (forall k, k <> i -> slot_at (free1 d i) k = slot_at d k).
 Proof. exact free1_inv. Qed.
 
+(* Multi-part values, with the partition explicit (free list fl, chains cs). Storing a value in k >= 1 slots
+   (k allocations, then the links head -> part -> ... -> last) keeps the table partitioned and adds exactly
+   the new chain of k slots. *)
+Theorem C14_store_keeps_partition :
+  forall k d fl cs, (1 <= k)%nat -> TInvP d fl cs ->
+  let '(d', l) := alloc_chain k d in exists fl', TInvP d' fl' (l :: cs) /\ length l = k.
+Proof. exact alloc_chain_inv. Qed.
+
+(* Removing a value clears every slot of its chain, head first: the chain disappears from the partition, its
+   slots are on the free list in reverse order (the last part will be reused first), nothing else moves. *)
+Theorem C14_remove_keeps_partition :
+  forall d fl c cs, TInvP d fl (c :: cs) -> TInvP (free_chain d c) (rev c ++ fl) cs.
+Proof. exact free_chain_inv. Qed.
+
+(* Every table reachable from a fresh one by storing values (in any number of slots) and removing live values,
+   in any order, is partitioned, and its chains are exactly the live values. astep is the function the
+   allocator correspondence runs against the implementation (kind 114). *)
+Theorem C14_reachable_tables_partitioned :
+  forall ops, let st := fold_left astep ops (empty_table, []) in exists fl, TInvP (fst st) fl (snd st).
+Proof. exact reachable_tables_partitioned. Qed.
+
+(* non-vacuity: a 3-slot value, a 1-slot value, the first removed, a 2-slot value stored in its freed slots
+   (last part first), one freed slot left on the list; the checker accepts every table on the way *)
+Example C14_chain_history :
+  let st := fold_left astep [AStore 2; AStore 0; ARemove 0; AStore 1] (empty_table, []) in
+  snd st = [[4]; [3; 2]] /\ free_head (fst st) = 1 /\ filled (fst st) = 5 /\ t_ok (check_table (fst st)) = true.
+Proof. vm_compute. repeat split; reflexivity. Qed.
+
 (* insert then remove leaves the fill mark where it was, and the freed slot is the next one handed out *)
 Example C14_steady_state :
   let d0 := {| filled := 1; free_head := 0; slots := [] |} in
@@ -87,3 +115,6 @@ Print Assumptions C14_checked_table_satisfies_invariant.
 Print Assumptions C14_alloc_pops_free_list.
 Print Assumptions C14_alloc_extends_only_when_list_empty.
 Print Assumptions C14_free_pushes_on_free_list.
+Print Assumptions C14_store_keeps_partition.
+Print Assumptions C14_remove_keeps_partition.
+Print Assumptions C14_reachable_tables_partitioned.
